@@ -6,8 +6,8 @@
    the records of every block before.  Model/Read.v takes the outcome of the whole decode as a parameter
    ([avro_man E b], [avro_list E b]: AvOk records | AvRaise mro); this file opens that parameter up:
 
-     stream bs    what the iterator hands the reader's loop: the records of the leading good blocks, then the
-                  exception of the first bad block (if any);
+     stream bs    what the iterator hands the reader's loop: the records of the leading good blocks, the records of
+                  the first bad block that precede its damage, then that block's exception;
      collect bs   the reader's loop `acc = []; for rec in reader: acc.append(..); return acc` of
                   FileManager.read_manifest_file / read_manifest_list_file (pinned by golden AST in GenRead.v):
                   the accumulator is a local of the call, an exception leaves the loop and the accumulator with it;
@@ -23,19 +23,21 @@ Require Import DS.Gen.GenRead DS.Model.Read.
 Import ListNotations.
 Open Scope list_scope.
 
-Inductive blk (A : Type) := BGood (recs : list A) | BBad (mro : list string).
+(* a block decodes to its records, or the decoder raises in it -- after handing out [pre], the records of the block
+   that precede the damage (a block is fetched whole and decoded record by record) *)
+Inductive blk (A : Type) := BGood (recs : list A) | BBad (pre : list A) (mro : list string).
 Arguments BGood {A} recs.
-Arguments BBad {A} mro.
+Arguments BBad {A} pre mro.
 
-Definition good {A} (b : blk A) : bool := match b with BGood _ => true | BBad _ => false end.
-Definition recs_of {A} (b : blk A) : list A := match b with BGood r => r | BBad _ => [] end.
+Definition good {A} (b : blk A) : bool := match b with BGood _ => true | BBad _ _ => false end.
+Definition recs_of {A} (b : blk A) : list A := match b with BGood r => r | BBad _ _ => [] end.
 Definition all_records {A} (bs : list (blk A)) : list A := List.concat (map recs_of bs).
 
 Fixpoint stream {A} (bs : list (blk A)) : list A * option (list string) :=
   match bs with
   | [] => ([], None)
   | BGood r :: tl => (r ++ fst (stream tl), snd (stream tl))
-  | BBad m :: _ => ([], Some m)
+  | BBad pre m :: _ => (pre, Some m)
   end.
 
 Definition collect {A} (bs : list (blk A)) : avro (list A) :=
